@@ -213,6 +213,9 @@ func (c *Conn) waitCloseHandshake() error {
 	}
 	defer c.readMu.unlock()
 
+	// A reader that gets readMu after us must not go on with its message.
+	c.readDiscarding = true
+
 	err = c.discardFramePayload(ctx, c.msgReader.payloadLength)
 	if err != nil {
 		return err
